@@ -336,10 +336,10 @@ def rule_writeback(ctx: Ctx, prog: Program, want: Tuple[str, ...] = ("R-EVENTS-E
                                       "after a write-back store the pass continues without testing that the shared domain is "
                                       "non-empty (min <= max): an empty intersection of two views is not reported as a failure")
                 # ---- announce + events
-                if "R-ANNOUNCE" in want or "R-EVENTS-EXACT" in want:
+                if "R-ANNOUNCE" in want or "R-EVENTS-EXACT" in want or "R-FLAGS-WRITERS" in want:
                     if bp.outcome == "return":
                         continue  # failure path: nothing left to wake
-                    if stores and len(calls) != 1:
+                    if stores and len(calls) != 1 and ("R-ANNOUNCE" in want or "R-EVENTS-EXACT" in want):
                         ctx.violation("R-ANNOUNCE", a.fn.path, a.fn.name, "writeback-unannounced", f"{a.fn.path}:{stores[0].line}",
                                       f"a write-back store into the domain stack is followed by {len(calls)} wake-up calls (expected 1)")
                         continue
@@ -353,6 +353,10 @@ def rule_writeback(ctx: Ctx, prog: Program, want: Tuple[str, ...] = ("R-EVENTS-E
                         if not (isinstance(row, View) and row.root == a.flags and len(row.idx) == 1 and row.idx[0] == a.T):
                             ctx.violation("R-FLAGS-WRITERS", a.fn.path, a.fn.name, "wake-row", f"{a.fn.path}:{c.line}",
                                           f"write-back wake-up consults {row!r}, not the enabled-flags row of the current level")
+                        elif "R-FLAGS-WRITERS" in want:
+                            ctx.ok("R-FLAGS-WRITERS", f"{a.mode}: write-back wake-up consults the enabled flags of the current level")
+                        if not ("R-ANNOUNCE" in want or "R-EVENTS-EXACT" in want):
+                            continue
                         if not mask.is_const():
                             ctx.violation("R-EVENTS-EXACT", a.fn.path, a.fn.name, "mask-not-constant", f"{a.fn.path}:{c.line}",
                                           f"event mask is not a per-path constant ({show_val(mask)})")
@@ -583,3 +587,82 @@ def rule_stack_writers(ctx: Ctx, prog: Program, thorough: bool = False) -> None:
         ctx.ok("R-ANNOUNCE", "constructor: every propagator is queued initially (np.ones)")
     else:
         ctx.violation("R-ANNOUNCE", fn.path, fn.qualname, "initial-queue", fn.loc(), "the propagation queue does not start with every propagator queued")
+
+
+# ------------------------------------------------------------------ R-WAKEUP: the wake-up primitive itself
+def rule_wakeup(ctx: Ctx, prog: Program) -> None:
+    """add_propagators(triggered, enabled_row, triggers, d, events): over ALL constraint indices p,
+    triggered[p] is set (never cleared) exactly when enabled_row[p] and triggers[d, p] & events != 0."""
+    ctx.rule("R-WAKEUP")
+    fn = prog.func(f"{prog.package}.propagators.propagators", "add_propagators")
+    ctx.fn(fn.fq)
+    if len(fn.params) != 5:
+        raise AnalysisError("add_propagators: expected (triggered, enabled_row, triggers, dom_idx, events)")
+    trig, row, tab, dom, evs = fn.params
+    it = Interp(prog)
+    res = it.run(fn)
+    loops: List[LoopSummary] = []
+    for r in res:
+        if r.outcome != "return":
+            ctx.violation("R-WAKEUP", fn.path, fn.name, "abnormal-exit", fn.loc(), f"add_propagators has a path ending in {r.outcome}")
+        for e in r.events:
+            if e.kind == "store":
+                ctx.violation("R-WAKEUP", fn.path, fn.name, "store-outside-scan", f"{fn.path}:{e.line}",
+                              f"add_propagators stores {View(e.root, e.idx)!r} outside its scan over the constraints")
+        for l in loops_of(r.events):
+            if l not in loops:
+                loops.append(l)
+    if len(loops) != 1:
+        ctx.violation("R-WAKEUP", fn.path, fn.name, "scan", fn.loc(), f"add_propagators must scan the constraints exactly once (found {len(loops)} loops)")
+        return
+    l = loops[0]
+    rng = l.iter_value
+    full = (l.index is not None and getattr(rng, "start", None) == ZERO and getattr(rng, "step", None) == ONE
+            and isinstance(getattr(rng, "stop", None), Aff) and rng.stop.single_atom() is not None and rng.stop.single_atom()[0] == "len"
+            and rng.stop.single_atom()[1] in (trig, row))
+    if not full:
+        ctx.violation("R-WAKEUP", fn.path, fn.name, "scan-range", f"{fn.path}:{getattr(l.node, 'lineno', 0)}",
+                      "the wake-up scan does not range over every constraint index 0..len(triggered)-1")
+    else:
+        ctx.ok("R-WAKEUP", "scan covers every constraint index", sample={"range": f"0..len({trig})"})
+    p = l.index
+    en = Aff.atom(("init", row, (p,)))
+    watched = Aff.atom(("bitand", *sorted([Aff.atom(("init", evs, ())) if False else it.scalar(State(), View(evs, ())), Aff.atom(("init", tab, (it.scalar(State(), View(dom, ())), p)))], key=repr)))
+    c_en = ("ne0", en)
+    c_w = ("ne0", watched)
+    n_set = n_skip = 0
+    for bp in l.paths:
+        if bp.outcome not in ("fall", "continue"):
+            ctx.violation("R-WAKEUP", fn.path, fn.name, "scan-exit", f"{fn.path}:{getattr(l.node, 'lineno', 0)}",
+                          f"the wake-up scan can end early ({bp.outcome}): constraints after that index are not examined")
+            continue
+        stores = [e for e in bp.events if e.kind == "store"]
+        f = bp.state.facts
+        if stores:
+            for e in stores:
+                okk = (e.root == trig and len(e.idx) == 1 and e.idx[0] == p and isinstance(e.value, Aff) and e.value == ONE and e.aug is None)
+                if not okk:
+                    ctx.violation("R-WAKEUP", fn.path, fn.name, "scan-store", f"{fn.path}:{e.line}",
+                                  f"the wake-up scan stores {View(e.root, e.idx)!r} = {show_val(e.value) if isinstance(e.value, Aff) else e.value!r}: "
+                                  "it may only set the flag of the constraint it is examining")
+                    continue
+                n_set += 1
+                if f.decide(c_en) is True and f.decide(c_w) is True:
+                    ctx.ok("R-WAKEUP", "set only if enabled and watching an announced event", sample={"under": [show_cond(c_en), show_cond(c_w)]})
+                else:
+                    which = "is enabled at this level" if f.decide(c_en) is not True else "watches one of the announced events of this domain"
+                    ctx.violation("R-WAKEUP", fn.path, fn.name, "set-condition", f"{fn.path}:{e.line}",
+                                  f"a constraint is queued without establishing that it {which} "
+                                  f"(required: {row}[p] and {tab}[{dom}, p] & {evs} != 0)")
+        else:
+            n_skip += 1
+            g = f.copy()
+            g.add(c_en)
+            if f.decide(negate(c_en)) is True or g.infeasible_strong() or g.decide(negate(c_w)) is True:
+                ctx.ok("R-WAKEUP", "skipped only if disabled or not watching")
+            else:
+                ctx.violation("R-WAKEUP", fn.path, fn.name, "skip-condition", f"{fn.path}:{getattr(l.node, 'lineno', 0)}",
+                              "an enabled constraint that watches one of the announced events can be passed over without being queued "
+                              f"(required: queue p whenever {row}[p] and {tab}[{dom}, p] & {evs} != 0)")
+    ctx.floor("R-WAKEUP:setting-paths", n_set, 1)
+    ctx.floor("R-WAKEUP:skipping-paths", n_skip, 1)
